@@ -182,13 +182,26 @@ def run(ck, tier):
                       "full_dict, word_map and words all derive from the `words` parameter: %s" % {k: sorted(map(str, v)) for k, v in src.items()})
 
     _distance(ck, p)
+    _merged(ck, p, impls)
+
+
+def dictionary_impls(p):
+    impls = {}
+    for f in p.fns.values():
+        ti = f.get("trait_item") or ""
+        if ti.startswith(TRAIT + "::"):
+            impls.setdefault(f.get("impl_self_head"), {})[last(ti)] = f
+    return impls
+
+
+def _merged(ck, p, impls, rule="R-C15-merged", only=None):
     # ---- MergedDictionary folds the same-named child query -----------------------------------
     mer = impls.get("harper_core::spell::merged_dictionary::MergedDictionary", {})
     n = 0
-    for m in MERGED:
+    for m in (only or MERGED):
         f = mer.get(m)
         if f is None:
-            ck.refuted("R-C15-merged", "anchor-missing:MergedDictionary::%s" % m, "", "method missing")
+            ck.refuted(rule, "anchor-missing:MergedDictionary::%s" % m, "", "method missing")
             continue
         n += 1
         ck.saw(f)
@@ -196,7 +209,7 @@ def run(ck, tier):
         names = sorted(set(x[3] for x in dc if x[3] in QUERIES))
         key = "MergedDictionary::%s" % m
         if names != [m]:
-            ck.refuted("R-C15-merged", key, f.span, "expected only child calls to %s, found %s" % (m, names))
+            ck.refuted(rule, key, f.span, "expected only child calls to %s, found %s" % (m, names))
             continue
         # the receiver is an element of self.children (loop over the field, or closure parameter of an
         # iterator chain that starts at self.children)
@@ -208,8 +221,9 @@ def run(ck, tier):
                 roots, fields = receiver_roots(b, t)
                 if ("arg", 1) in roots and "children" not in fields:
                     on_self = True
-        ck.decide("R-C15-merged", key, reads_children and not on_self, f.span, "folds children[..].%s (iterates self.children=%s, receiver is self=%s)" % (m, reads_children, on_self))
-    ck.floor("R-C15-merged", "query methods of MergedDictionary", n, 9)
+        ck.decide(rule, key, reads_children and not on_self, f.span, "folds children[..].%s (iterates self.children=%s, receiver is self=%s)" % (m, reads_children, on_self))
+    ck.floor(rule, "query methods of MergedDictionary", n, 9 if only is None else len(only))
+
 
 
 def _fields_read(body):
